@@ -34,6 +34,14 @@ STRENGTHENED = {
  'C05_5': 'inconclusive at first (`np.asarray(costs, dtype=float)` of proxies) -> numpy shim in artap.individual (asarray/round keep proxies and aliasing); objective returning a numpy array',
  'C09_5': 'missed at first (generate() was only run with stubbed operators on list vectors) -> `variation-contract-*`: real SBX / PM on list and ndarray vectors must not write into or share memory with their arguments; generate() with ndarray parents',
  'C10_5': 'missed at first (updates between two syncs re-bound every attribute) -> histories with in-place updates (`imut`)',
+ 'C12_5': 'inconclusive at first (in-place `x *= range` of a float matrix with symbolic bounds; only one Halton design per path) -> alias-preserving object-array stand-in for the matrix returned by halton(); a SECOND design of the same size with another box',
+ 'C13_5': 'missed at first (fresh parameter dicts per generator) -> `sequence-*`: several generators in a row on the SAME parameter dicts, parameter definitions must stay untouched',
+ 'C14_5': 'missed at first (list vectors only) -> worst-case and gradient evaluators on numpy-array design vectors, design-vector-unchanged for the gradient evaluator too',
+ 'C15_5': 'inconclusive at first (the corrupted function object showed up as a translator-validation mismatch) -> evaluate() must leave the documented optimum / coordinates / box untouched; second call on the same point returns the same cost',
+ 'C17_5': 'missed at first (each query kind in its own configuration) -> after the queries of every configuration, population queries must still list in recording order and the records must carry their own data',
+ 'C18_5': 'missed at first (one particle per update) -> two particles sharing ONE personal-best record (PSOGA does that), rule applied particle by particle',
+ 'C19_5': 'inconclusive at first (`math.isfinite` of a proxy) -> math shim in artap.surrogate; the objective may return +inf; the oracle keeps copies; values returned earlier must not be modified later',
+ 'C20_5': 'inconclusive at first (`np.asarray(vector, dtype=float)` of proxies) -> numpy shim in artap.individual; `containers-ndarray-*`: each point in several comparisons, operands untouched, hash unchanged',
  'C20_4': 'inconclusive at first (`hash(point)` inside the library hit the int-only builtin) -> shim calls the real `__hash__`; the real CPython collision hash(-1.0) == hash(-2.0) as model-selection hint so that the counterexample replays',
 }
 print('| seed | change (abridged) | needs | verdict of the check(s) on the patched tree | note |')
